@@ -27,6 +27,7 @@ CONSTANTS
   EqTemplates = {}
   EqWrongs = {}
   CallKinds = {}
+  Laws = {}
   MaxCalls = 0
 INVARIANT Verdict
 INVARIANT RefusedOnlyIfWrongDimension
